@@ -268,25 +268,34 @@ def maskFilter {α : Type} : List Bool → List α → List α
 
 abbrev TagTable := List (Bytes × List (Option Bytes))
 
-def tagIndex (tbl : TagTable) (tag : Bytes) : Option Nat := tbl.findIdx? (fun t => t.1 == tag)
+/-- Find the tag (the keyhash lookup of `esl_msa_AddGS`/`esl_msa_AppendGR`) or append a new row of `nnew` NULL slots,
+    then update slot `nidx` of that row with `f`. -/
+def tblUpdate (nnew : Nat) (f : Option Bytes → Option Bytes) (tag : Bytes) (nidx : Nat) : TagTable → TagTable
+  | [] => [(tag, (List.replicate nnew none).modify nidx f)]
+  | (t, vals) :: rest =>
+    if t = tag then (t, vals.modify nidx f) :: rest else (t, vals) :: tblUpdate nnew f tag nidx rest
+
+/-- slot `i` of the row of `tag` (NULL if there is no such row) -/
+def tblLookup (tag : Bytes) (i : Nat) : TagTable → Option Bytes
+  | [] => none
+  | (t, vals) :: rest => if t = tag then vals.getD i none else tblLookup tag i rest
+
+/-- what `esl_msa_AddGS` stores: the value, or `old \n value` when the sequence already has this tag -/
+def gsStore (value : Bytes) : Option Bytes → Option Bytes
+  | none => some value
+  | some old => some (old ++ [0x0a] ++ value)
+
+/-- what `esl_msa_AppendGR`'s `esl_strcat` stores: nothing for an empty value, else the concatenation -/
+def grStore (value : Bytes) (old : Option Bytes) : Option Bytes :=
+  if value.isEmpty then old else some (old.getD [] ++ value)
 
 /-- `esl_msa_AddGS(new, tag, -1, nidx, value, -1)` on a table with `nnew` sequence slots -/
 def addGS (nnew : Nat) (tbl : TagTable) (tag : Bytes) (nidx : Nat) (value : Bytes) : TagTable :=
-  let (tbl, t) := match tagIndex tbl tag with
-    | some t => (tbl, t)
-    | none => (tbl ++ [(tag, List.replicate nnew none)], tbl.length)
-  tbl.modify t fun (tg, vals) =>
-    (tg, vals.modify nidx fun
-      | none => some value
-      | some old => some (old ++ [0x0a] ++ value))
+  tblUpdate nnew (gsStore value) tag nidx tbl
 
-/-- `esl_msa_AppendGR(new, tag, nidx, value)`; `esl_strcat` leaves the slot alone for an empty value -/
+/-- `esl_msa_AppendGR(new, tag, nidx, value)` -/
 def appendGR (nnew : Nat) (tbl : TagTable) (tag : Bytes) (nidx : Nat) (value : Bytes) : TagTable :=
-  let (tbl, t) := match tagIndex tbl tag with
-    | some t => (tbl, t)
-    | none => (tbl ++ [(tag, List.replicate nnew none)], tbl.length)
-  if value.isEmpty then tbl
-  else tbl.modify t fun (tg, vals) => (tg, vals.modify nidx fun old => some (old.getD [] ++ value))
+  tblUpdate nnew (grStore value) tag nidx tbl
 
 /-- the unparsed-annotation part of the copy loop: for every retained sequence, every tag with a value -/
 def subsetTags (add : TagTable → Bytes → Nat → Bytes → TagTable) (src : TagTable) (useme : List Bool) :
